@@ -28,7 +28,9 @@ MANIFEST = {
             'runX_eq_run; the transfer corollaries no_stuck_acyclicX, outcome_schedule_independentX, complete_at_quiescenceX, '
             'finished_is_inertX. The code sorts sibling commands (pySort, proved a rearrangement): invariance under that order '
             'is a driver check on every command-free program, not a theorem. verdict_rule is about the completion check, which the '
-            'model with commands shares: it holds with commands as it stands. '
+            'model with commands shares: Mistral.Props.C01Cmd.verdict_ruleX / verdict_rule_stepX state it on stepX for every '
+            'definition with commands (+ fail_command_verdict, succeed_command_verdict: the command decides the outcome itself); '
+            'crash_only_in_refreshX and no_crash_on_acyclic_partialX: with commands too, no event raises an undeclared error on an acyclic definition. '
             'Ties: the `core` stream (generated data-free programs x oracles x '
             'schedules (+pause/resume/stop): committed rows and multiset of pending deliveries of the REAL engine equal the '
             'model after EVERY event) and the new `live` stream (small acyclic definitions incl. partial joins with successors '
@@ -62,7 +64,7 @@ RULE = ('stream core: data-free single-activation direct workflows (forks, all/p
         'distinct (definition, oracle, schedule seed, commands)')
 TRUSTED = ['harness seams (post-commit thread, RPC client, executor, scheduler dispatcher, clock, ids) replaced by recorders',
            'translate/states.py']
-LEAN_MODULES = ['Mistral.Props.C01', 'Mistral.Props.C01X']
+LEAN_MODULES = ['Mistral.Props.C01', 'Mistral.Props.C01X', 'Mistral.Props.C01Cmd']
 
 
 def correspond(ctx):
